@@ -17,8 +17,9 @@ from vlib import log
 MODES_INFO = {
     "hall": "every one of the 530 Hall settings: own conventional cell and a re-described cell (random unimodular re-basing with entries up to 6, origin shift; optionally rigid rotation, atom permutation, added lattice vectors), Spglib and Standard conventions alternating, symprec in {1e-5..1e-2}, both angle-tolerance modes",
     "super": "supercells: random HNFs of index 2..4 (quick) / 2..6 (thorough) and of index 5..12, plus the skew family [[1,0,0],[1,1,0],[0,2,k]], of crystals from random Hall settings, optionally re-based/shifted/rotated",
-    "noise": "undistorted crystals and noisy twins (atoms displaced uniformly in a ball of radius 5% symprec, symmetric lattice strain of the same relative size) at the same symprec",
+    "noise": "(half of the crystals carry a third species on a special position) undistorted crystals and noisy twins (atoms displaced uniformly in a ball of radius 5% symprec, symmetric lattice strain of the same relative size) at the same symprec",
     "hallreq": "Setting::HallNumber(h) for every h in 1..=530 on a crystal generated in that setting (own and re-described cell), on a crystal of another type, and for out-of-range Hall numbers",
+    "lowsym": "many cheap low-symmetry cases: Hall 1/2 (triclinic) and monoclinic settings, half with an extra species on a special position, strongly re-based + shifted (+ supercells of index 2..5)",
     "meta": "metamorphic pairs: a base crystal and a random word of 1-5 re-descriptions of it (re-basing, origin shift, rigid rotation, permutation, added lattice vectors, scaling with symprec, supercell, mirror image)",
     "wyckoff": "crystals with atoms placed on tabulated Wyckoff positions (every position of every Hall setting over the tiers) plus a general-position species, own and re-described cells",
 }
@@ -27,7 +28,7 @@ MODES_INFO = {
 def tree_key():
     """Content hash of everything the oracle outputs depend on."""
     h = hashlib.sha1()
-    roots = ["/repo/moyo/src", "/repo/moyo/Cargo.toml", os.path.join(vlib.HARNESS, "src"), os.path.join(vlib.HARNESS, "Cargo.toml"),
+    roots = [os.path.join(vlib.REPO, "moyo/src"), os.path.join(vlib.REPO, "moyo/Cargo.toml"), os.path.join(vlib.HARNESS, "src"), os.path.join(vlib.HARNESS, "Cargo.toml"),
              os.path.join(vlib.LEAN, "Moyo", "Model"), os.path.join(vlib.LEAN, "Moyo", "Generated"), os.path.join(vlib.LEAN, "Main.lean")]
     for r in roots:
         if os.path.isfile(r):
